@@ -230,7 +230,9 @@ fn parse_seeds(zoo: &[ZooKey], thorough: bool) -> Vec<(String, Vec<u8>)> {
     cst.ekus = vec![EkuSpec::ServerAuth];
     v.push(("csr".into(), to_params(&cst).unwrap().serialize_request(&kp).unwrap().der().to_vec()));
     // keys in every format (parsers see them whether or not the back end supports the format)
-    for z in zoo.iter().filter(|z| z.name.contains("_1") && (thorough || !(z.kind.is_slow() || matches!(z.kind, KeyKind::Rsa2048 | KeyKind::P521)))) {
+    // (keys of 6144 and 8192 bits are left out: every mutant that still parses costs a full key validation of 0.1-0.5 s in each
+    // loader, and their DER has the same shape as the 4096-bit key's)
+    for z in zoo.iter().filter(|z| z.name.contains("_1") && !matches!(z.kind, KeyKind::Rsa6144 | KeyKind::Rsa8192) && (thorough || !(z.kind.is_slow() || matches!(z.kind, KeyKind::Rsa2048 | KeyKind::P521)))) {
         v.push((format!("key {}", z.name), z.der.clone()));
     }
     if thorough {
@@ -248,7 +250,7 @@ fn parse_seeds(zoo: &[ZooKey], thorough: bool) -> Vec<(String, Vec<u8>)> {
 fn part_parse_short(rep: &mut Report, thorough: bool) {
     let w = Watch { slow: AtomicU64::new(0) };
     let n = short_count(if thorough { 3 } else { 2 });
-    let sec = Section::new("parse/short-strings", &format!("every byte string of length <= {} through every DER parser entry point and (as text, when valid UTF-8) every PEM/text entry point", if thorough { 3 } else { 2 })).with_deadline(if thorough { 1100 } else { 40 });
+    let sec = Section::new("parse/short-strings", &format!("every byte string of length <= {} through every DER parser entry point and (as text, when valid UTF-8) every PEM/text entry point", if thorough { 3 } else { 2 })).with_deadline(if thorough { 700 } else { 40 });
     run::sweep_n(&sec, n, &|i| format!("{:02x?}", short_string(i)), &|i| {
         let b = short_string(i);
         let mut out = Outcome::default();
@@ -882,7 +884,7 @@ fn part_generation(rep: &mut Report, thorough: bool) {
     let ctx = stub_self_ctx(Alg::Ed25519, 1);
     let ictx = stub_issuer_ctx(Alg::EcP256, &DnSpec::cn("issuer"), &KeyIdSpec::Sha256, Alg::Ed25519, "pair");
     let issuer = ictx.issuer.as_ref().unwrap();
-    let sec = Section::new("generation/hostile-levels", "constructible but hostile parameter values (non-ASCII text in String-typed IA5 fields, OID component lists of any shape, dates whose UTC year leaves 0..=9999, empty/huge serials, 10^4-element lists, 64 KiB strings) at deviation levels k <= 2 (thorough 3), through self_signed, signed_by, CertificateSigningRequestParams::signed_by, as issuer, serialize_request(_with_attributes), CRL signed_by, pem(), Debug/Display and accessors").with_deadline(if thorough { 1100 } else { 45 });
+    let sec = Section::new("generation/hostile-levels", "constructible but hostile parameter values (non-ASCII text in String-typed IA5 fields, OID component lists of any shape, dates whose UTC year leaves 0..=9999, empty/huge serials, 10^4-element lists, 64 KiB strings) at deviation levels k <= 2 (thorough 3), through self_signed, signed_by, CertificateSigningRequestParams::signed_by, as issuer, serialize_request(_with_attributes), CRL signed_by, pem(), Debug/Display and accessors").with_deadline(if thorough { 700 } else { 45 });
     run::levels(&sec, &space, if thorough { 3 } else { 2 }, &|c, _| {
         let mut out = Outcome::default();
         let mut f = Vec::new();
@@ -897,7 +899,7 @@ fn part_generation(rep: &mut Report, thorough: bool) {
     rep.add(sec);
     // the ordinary certificate / CSR / CRL spaces with panics as the only oracle
     let cs = cert_space(false, true);
-    let sec = Section::new("generation/ordinary-levels", "the ordinary certificate parameter space at levels k <= 2 (thorough 3) with 'no panic' as the oracle, self- and issuer-signed").with_deadline(if thorough { 900 } else { 30 });
+    let sec = Section::new("generation/ordinary-levels", "the ordinary certificate parameter space at levels k <= 2 (thorough 3) with 'no panic' as the oracle, self- and issuer-signed").with_deadline(if thorough { 400 } else { 30 });
     run::levels(&sec, &cs, if thorough { 3 } else { 2 }, &|st, _| {
         let mut out = Outcome::default();
         for c in [&ctx, &ictx] {
@@ -919,7 +921,7 @@ fn part_generation(rep: &mut Report, thorough: bool) {
         let raw = fake_pub(Alg::EcP256, 3);
         let (key, _l) = stub_key(Alg::EcP256, &raw);
         let kpub = KeyPub { alg: Alg::EcP256, raw };
-        let sec = Section::new("generation/ordinary-levels/csr", "the ordinary request parameter space (names, alternative names, usages, custom extensions, caller attribute lists of <= 2 incl. a caller-supplied extensionRequest, inert fields) at levels k <= 2 (thorough 3) with 'no panic' as the oracle").with_deadline(if thorough { 900 } else { 30 });
+        let sec = Section::new("generation/ordinary-levels/csr", "the ordinary request parameter space (names, alternative names, usages, custom extensions, caller attribute lists of <= 2 incl. a caller-supplied extensionRequest, inert fields) at levels k <= 2 (thorough 3) with 'no panic' as the oracle").with_deadline(if thorough { 400 } else { 30 });
         run::levels(&sec, &csr_space, if thorough { 3 } else { 2 }, &|c, _| {
             let mut out = Outcome::default();
             let ev = crate::artefacts::eval_csr(&c.st, &c.attrs, &key, &kpub);
@@ -935,7 +937,7 @@ fn part_generation(rep: &mut Report, thorough: bool) {
         rep.add(sec);
         let iss = super::c08::issuers();
         let crl_space = super::c08::crl_space(&iss, false);
-        let sec = Section::new("generation/ordinary-levels/crl", "the ordinary CRL parameter space (update times, CRL number, issuing distribution point, revoked lists, key-identifier method, issuers) at levels k <= 2 (thorough 3) with 'no panic' as the oracle").with_deadline(if thorough { 900 } else { 30 });
+        let sec = Section::new("generation/ordinary-levels/crl", "the ordinary CRL parameter space (update times, CRL number, issuing distribution point, revoked lists, key-identifier method, issuers) at levels k <= 2 (thorough 3) with 'no panic' as the oracle").with_deadline(if thorough { 400 } else { 30 });
         run::levels(&sec, &crl_space, if thorough { 3 } else { 2 }, &|c, _| {
             let mut out = Outcome::default();
             let ev = crate::artefacts::eval_crl(&c.st, &iss.list[c.issuer]);
